@@ -598,6 +598,9 @@ class FunctionParser(BaseParser):
         return value
 
     def parse_addition(self, key: str, value, context: RuntimeContext):
+        if key in self.exclude_vars:
+            # an excluded (underscore-prefixed) param is never taken from the keywords, whatever **kwargs accepts
+            return unprovided
         var_key = f"**{self.kw_var}:{key}" if self.kw_var else key
         return super().parse_addition(var_key, value=value, context=context)
 
